@@ -289,12 +289,48 @@ def nest_shape(rng, lit):
     return "function f(n, m) { %s }" % body
 
 
+def array_shape(rng, lit):
+    """Arrays whose elements come from signals: filled element by element in a loop or branch, updated again behind
+    the join, read through `<--`; tables indexed by a loop counter, by a signal, by a local that is assigned late
+    (its degree is known only after the access has been visited); two-dimensional tables."""
+    poly = lambda x: rng.choice(["%s" % x, "%s * %s" % (x, x), "%s * %s * %s" % (x, x, x), "%s + 1" % x, "%s * 2" % x])
+    n = rng.randrange(2, 5)
+    k = rng.randrange(8)
+    if k == 0:     # loop-carried array, updated again after the loop, then read
+        return ("template T(n) { signal input in[%d]; signal output out; var t[%d]; for (var i = 0; i < %s; i++) { t[i] = %s; } t[%d] = %s; out <-- t[%d]%s; }"
+                % (n, n, rng.choice([str(n), "n"]), poly("in[i]"), rng.randrange(n), rng.choice([lit(), "in[0]"]), rng.randrange(n), rng.choice(["", " * in[0]"])))
+    if k == 1:     # the same behind an if-join; array declared with or without initialiser
+        init = "" if rng.random() < 0.6 else " = [%s]" % ", ".join(lit() for _ in range(n))
+        return ("template T(n) { signal input in[%d]; signal output out; var t[%d]%s; if (n > %d) { t[%d] = %s; } t[%d] = %s; out <-- t[%d]; }"
+                % (n, n, init, rng.randrange(3), rng.randrange(n), poly("in[%d]" % rng.randrange(n)), rng.randrange(n), lit(), rng.randrange(n)))
+    if k == 2:     # table indexed by a local that gets its value (and degree) after the access
+        n = rng.randrange(5, 7)        # five points of the line 0, 1, 2, 3, 4 stay inside the table
+        return ("template T() { signal input in[%d]; signal output out[%d]; var table[%d] = [%s]; var state = %s; for (var i = 0; i < %d; i++) { out[i] <-- table[state]; state = %s; } }"
+                % (n, n, n, ", ".join(lit() for _ in range(n)), rng.choice(["0", "1"]), n, rng.choice(["in[i]", "i", "state + 1", "in[i] * 0"])))
+    if k == 3:     # element-wise quadratic assignments indexed by the loop counter
+        return ("template T() { signal input in[%d]; signal output out[%d]; for (var i = 0; i < %d; i++) { out[i] <-- %s; } }"
+                % (n, n, n, poly("in[i]")))
+    if k == 4:     # two-dimensional table, row chosen by a signal or a counter
+        return ("template T() { signal input in[%d]; signal output out; var m[2][2] = [[%s, %s], [%s, in[0]]]; var r = %s; out <-- m[r][%d] %s; }"
+                % (n, lit(), lit(), lit(), rng.choice(["0", "1", "in[1]"]), rng.randrange(2), rng.choice(["", "* in[0]", "+ in[1] * in[1]"])))
+    if k == 5:     # array built from signals, then one element overwritten by a constant, read at a signal index
+        return ("template T() { signal input in[%d]; signal input sel; signal output out; var t[%d] = [%s]; t[%d] = %s; out <-- t[%s]; }"
+                % (n, n, ", ".join(poly("in[%d]" % j) for j in range(n)), rng.randrange(n), lit(), rng.choice(["sel", str(rng.randrange(n))])))
+    if k == 6:     # function: array parameter-free accumulation with a late update
+        return ("function f(n, a) { var t[%d]; var i = 0; while (i < n) { t[i] = a * a * i; i += 1; } t[0] = %s; if (t[1] == %s) { return 1; } return t[0]; }"
+                % (n, lit(), lit()))
+    return ("template T(n) { signal input in[%d]; signal output out; var acc[2]; var k = 0; while (k < n) { if (k == %d) { acc[0] = in[0] * in[1]; } else { acc[1] = %s; } k += 1; } acc[%d] = %s; out <-- acc[0] + acc[1]; }"
+            % (n, rng.randrange(3), poly("in[1]"), rng.randrange(2), lit()))
+
+
 def targeted(rng, curve="BN254"):
     """Hand-shaped programs aimed at known weak spots (phi without default path,
     values merged at joins, loops, every operator on constants)."""
     p = PRIMES[curve]
     lit = lambda: str(rng.choice([0, 1, 2, 3, 5, p - 1, p // 2, p // 2 + 1, 255, 256, 1 << 20]))
-    k = rng.randrange(18)
+    k = rng.randrange(22)
+    if k >= 18:    # arrays filled from signals, late updates, late-known indices
+        return array_shape(rng, lit)
     if k >= 16:    # a parameter (array) reassigned / updated element-wise more than once: its later versions are
         #            named by no declaration statement (defect D20, repaired in /repo 2468c0a)
         if rng.random() < 0.5:
